@@ -2,8 +2,10 @@ package main
 
 // C20: the json-patch command. Under the symbolic executor the real main() runs with its I/O calls
 // redirected to the stubs below (go-flags delivers the -p values by calling the real
-// FileFlag.UnmarshalFlag; os.Stat / ReadFile answer from the scenario; log.Fatalf records stderr and the
-// exit status and ends the run; fmt.Printf records stdout). In the native twin the same scenario is
+// FileFlag.UnmarshalFlag; os.Stat / ReadFile / os.Open answer from the scenario; the three standard streams
+// are handles whose Read/Write (from the command or from the standard library on its behalf: io.ReadAll,
+// bufio, json.Decoder, io.Copy) are served from the scenario; log.Fatal* and os.Exit record the exit status
+// and end the run; fmt.Print* / log.Print* record stdout / stderr). In the native twin the same scenario is
 // written to real files and the REAL BINARY built from this directory is executed.
 
 import (
@@ -14,6 +16,7 @@ import (
 	"os"
 	"os/exec"
 	"path/filepath"
+	"reflect"
 	"strconv"
 	"time"
 
@@ -39,6 +42,8 @@ type vxFile struct {
 var vxScn struct {
 	files  []vxFile
 	stdin  []byte
+	in     vxHandle
+	open   []vxHandle
 	stdout []byte
 	stderr []byte
 	exit   int
@@ -102,55 +107,255 @@ func vxstub_ioutil_ReadFile(name string) ([]byte, error) {
 	return append([]byte(nil), f.content...), nil
 }
 
-func vxstub_ioutil_ReadAll(r io.Reader) ([]byte, error) {
-	return append([]byte(nil), vxScn.stdin...), nil
+// File handles. The command's standard streams are three distinct handles (set by the harness under the
+// executor); every read or write the command or the standard library makes on an *os.File arrives here.
+var vxStdin, vxStdout, vxStderr = new(os.File), new(os.File), new(os.File)
+
+type vxHandle struct {
+	f    *os.File
+	data []byte
+	pos  int
 }
 
-func vxstub_log_Fatalf(format string, v ...interface{}) {
-	vxScn.stderr = append(vxScn.stderr, "error: "...)
-	vxScn.stderr = append(vxScn.stderr, format...)
-	vxScn.exit = 1
+func vxHandleOf(f *os.File) *vxHandle {
+	if f == vxStdin {
+		return &vxScn.in
+	}
+	for k := range vxScn.open {
+		if vxScn.open[k].f == f {
+			return &vxScn.open[k]
+		}
+	}
+	return nil
+}
+
+func vxstub_os_Open(name string) (*os.File, error) {
+	f := vxFind(name)
+	if f == nil || f.kind == fkMissing {
+		return nil, errors.New("open " + name + ": no such file or directory")
+	}
+	h := vxHandle{f: new(os.File)}
+	if f.kind == fkDir {
+		h.pos = -1
+	} else {
+		h.data = append([]byte(nil), f.content...)
+	}
+	vxScn.open = append(vxScn.open, h)
+	return h.f, nil
+}
+
+func vxstub_file_Read(f *os.File, b []byte) (int, error) {
+	h := vxHandleOf(f)
+	if h == nil {
+		return 0, os.ErrInvalid
+	}
+	if h.pos < 0 {
+		return 0, errors.New("read: is a directory")
+	}
+	if len(b) == 0 {
+		return 0, nil
+	}
+	if h.pos >= len(h.data) {
+		return 0, io.EOF
+	}
+	n := copy(b, h.data[h.pos:])
+	h.pos += n
+	return n, nil
+}
+
+func vxstub_file_Write(f *os.File, b []byte) (int, error) {
+	switch f {
+	case vxStdout:
+		vxScn.stdout = append(vxScn.stdout, b...)
+	case vxStderr:
+		vxScn.stderr = append(vxScn.stderr, b...)
+	default:
+		return 0, os.ErrInvalid
+	}
+	return len(b), nil
+}
+
+func vxstub_file_WriteString(f *os.File, s string) (int, error) {
+	return vxstub_file_Write(f, []byte(s))
+}
+
+func vxstub_file_WriteTo(f *os.File, w io.Writer) (int64, error) {
+	h := vxHandleOf(f)
+	if h == nil || h.pos < 0 {
+		return 0, os.ErrInvalid
+	}
+	n, err := w.Write(h.data[h.pos:])
+	h.pos += n
+	return int64(n), err
+}
+
+func vxstub_file_ReadFrom(f *os.File, r io.Reader) (int64, error) {
+	var total int64
+	buf := make([]byte, 64)
+	for {
+		n, err := r.Read(buf)
+		if n > 0 {
+			if _, werr := vxstub_file_Write(f, buf[:n]); werr != nil {
+				return total, werr
+			}
+			total += int64(n)
+		}
+		if err == io.EOF {
+			return total, nil
+		}
+		if err != nil {
+			return total, err
+		}
+	}
+}
+
+func vxstub_file_Close(f *os.File) error { return nil }
+
+func vxstub_os_Exit(code int) {
+	vxScn.exit = code
 	panic(vxExit{})
 }
 
-// vxstub_fmt_Printf implements the verbs the command can reach: %s with a []byte or string operand and %%;
-// a verb without an operand is rendered as Go renders it (%!v(MISSING)), so a format string that carries
-// document bytes shows up as different output.
-func vxstub_fmt_Printf(format string, a ...interface{}) (int, error) {
-	n := 0
+// Formatting: the verbs and operand types a command of this size can plausibly use; anything else renders
+// as '?', which the real binary will not print, so such a path ends UNCONFIRMED (inconclusive), never as a
+// false alarm.
+func vxOperand(dst []byte, v interface{}, verb byte) []byte {
+	switch x := v.(type) {
+	case nil:
+		return append(dst, "<nil>"...)
+	case string:
+		return append(dst, x...)
+	case []byte:
+		if verb == 's' {
+			return append(dst, x...)
+		}
+		dst = append(dst, '[')
+		for k, c := range x {
+			if k > 0 {
+				dst = append(dst, ' ')
+			}
+			dst = strconv.AppendInt(dst, int64(c), 10)
+		}
+		return append(dst, ']')
+	case int:
+		return strconv.AppendInt(dst, int64(x), 10)
+	case error:
+		return append(dst, x.Error()...)
+	}
+	// named string and byte-slice types (json.RawMessage, FileFlag) print like their underlying type
+	rv := reflect.ValueOf(v)
+	if rv.Kind() == reflect.String {
+		return append(dst, rv.String()...)
+	}
+	if rv.Kind() == reflect.Slice && rv.Type().Elem().Kind() == reflect.Uint8 {
+		return vxOperand(dst, rv.Bytes(), verb)
+	}
+	return append(dst, '?')
+}
+
+func vxSprintf(format string, a []interface{}) []byte {
+	var out []byte
 	arg := 0
 	for k := 0; k < len(format); k++ {
 		c := format[k]
 		if c != '%' {
-			vxScn.stdout = append(vxScn.stdout, c)
-			n++
+			out = append(out, c)
 			continue
 		}
 		k++
 		if k >= len(format) {
-			vxScn.stdout = append(vxScn.stdout, "%!(NOVERB)"...)
+			out = append(out, "%!(NOVERB)"...)
 			break
 		}
-		if format[k] == '%' {
-			vxScn.stdout = append(vxScn.stdout, '%')
+		verb := format[k]
+		if verb == '%' {
+			out = append(out, '%')
 			continue
 		}
 		if arg >= len(a) {
-			vxScn.stdout = append(vxScn.stdout, '%', '!', format[k])
-			vxScn.stdout = append(vxScn.stdout, "(MISSING)"...)
+			out = append(out, '%', '!', verb)
+			out = append(out, "(MISSING)"...)
 			continue
 		}
-		switch v := a[arg].(type) {
-		case []byte:
-			vxScn.stdout = append(vxScn.stdout, v...)
-		case string:
-			vxScn.stdout = append(vxScn.stdout, v...)
-		default:
-			vxScn.stdout = append(vxScn.stdout, '?')
+		if verb == 's' || verb == 'v' || (verb == 'd' && isInt(a[arg])) {
+			out = vxOperand(out, a[arg], verb)
+		} else {
+			out = append(out, '?')
 		}
 		arg++
 	}
-	return n, nil
+	if arg < len(a) {
+		out = append(out, "%!(EXTRA ?)"...)
+	}
+	return out
+}
+
+func isInt(v interface{}) bool { _, ok := v.(int); return ok }
+
+func isString(v interface{}) bool { _, ok := v.(string); return ok }
+
+func vxSprint(a []interface{}, ln bool) []byte {
+	var out []byte
+	for k, v := range a {
+		if k > 0 && (ln || (!isString(v) && !isString(a[k-1]))) {
+			out = append(out, ' ')
+		}
+		out = vxOperand(out, v, 'v')
+	}
+	if ln {
+		out = append(out, '\n')
+	}
+	return out
+}
+
+func vxWriterTo(w io.Writer, b []byte) (int, error) {
+	if f, ok := w.(*os.File); ok {
+		return vxstub_file_Write(f, b)
+	}
+	return w.Write(b)
+}
+
+func vxstub_fmt_Printf(format string, a ...interface{}) (int, error) {
+	return vxstub_file_Write(vxStdout, vxSprintf(format, a))
+}
+func vxstub_fmt_Print(a ...interface{}) (int, error) {
+	return vxstub_file_Write(vxStdout, vxSprint(a, false))
+}
+func vxstub_fmt_Println(a ...interface{}) (int, error) {
+	return vxstub_file_Write(vxStdout, vxSprint(a, true))
+}
+func vxstub_fmt_Fprintf(w io.Writer, format string, a ...interface{}) (int, error) {
+	return vxWriterTo(w, vxSprintf(format, a))
+}
+func vxstub_fmt_Fprint(w io.Writer, a ...interface{}) (int, error) {
+	return vxWriterTo(w, vxSprint(a, false))
+}
+func vxstub_fmt_Fprintln(w io.Writer, a ...interface{}) (int, error) {
+	return vxWriterTo(w, vxSprint(a, true))
+}
+
+// log: the standard logger writes a timestamp, the text and a newline to standard error.
+func vxLog(b []byte) {
+	vxScn.stderr = append(vxScn.stderr, "2026/01/01 00:00:00 "...)
+	vxScn.stderr = append(vxScn.stderr, b...)
+	if len(b) == 0 || b[len(b)-1] != '\n' {
+		vxScn.stderr = append(vxScn.stderr, '\n')
+	}
+}
+func vxstub_log_Printf(format string, v ...interface{}) { vxLog(vxSprintf(format, v)) }
+func vxstub_log_Print(v ...interface{})                 { vxLog(vxSprint(v, false)) }
+func vxstub_log_Println(v ...interface{})               { vxLog(vxSprint(v, true)) }
+func vxstub_log_Fatalf(format string, v ...interface{}) {
+	vxLog(vxSprintf(format, v))
+	vxstub_os_Exit(1)
+}
+func vxstub_log_Fatal(v ...interface{}) {
+	vxLog(vxSprint(v, false))
+	vxstub_os_Exit(1)
+}
+func vxstub_log_Fatalln(v ...interface{}) {
+	vxLog(vxSprint(v, true))
+	vxstub_os_Exit(1)
 }
 
 // ---------------------------------------------------------------- scenario
@@ -251,11 +456,31 @@ func H_C20_Main() {
 		}
 		vxScn.files = append(vxScn.files, vxGenFile(i))
 	}
-	vxScn.stdin = []byte(`{"a":"` + string([]byte{vxPlain("doc.c0"), vxPlain("doc.c1")}) + `","s":"x","l":[]}`)
+	dc := string([]byte{vxPlain("doc.c0"), vxPlain("doc.c1")})
+	vxScn.stdin = []byte(`{"a":"` + dc + `","s":"x","l":[]}`)
+	form := vx.Choose("doc.form", 6)
+	if n == 0 && form >= 2 && form <= 4 {
+		// no patch and no JSON text on stdin: the statement does not say what "the document" is then
+		vx.Assume(false)
+	}
+	switch form {
+	case 1: // surrounding whitespace: printed verbatim when no patch is given
+		vxScn.stdin = append(append([]byte(" \n"), vxScn.stdin...), " \n"...)
+	case 2: // a second document after the first: not one JSON text
+		vxScn.stdin = append(vxScn.stdin, ` {"a":3}`...)
+	case 3: // trailing garbage
+		vxScn.stdin = append(vxScn.stdin, "\n]"...)
+	case 4: // truncated
+		vxScn.stdin = vxScn.stdin[:len(vxScn.stdin)-1]
+	case 5: // whitespace inside
+		vxScn.stdin = []byte("{ \"a\" : \"" + dc + "\",\n\t\"s\":\"x\", \"l\":[ ] }")
+	}
 	for i, f := range vxScn.files {
 		vx.Note("file"+strconv.Itoa(i)+"("+strconv.Itoa(f.kind)+")", f.content)
 	}
 	vx.Note("stdin", vxScn.stdin)
+	vxScn.in = vxHandle{f: vxStdin, data: vxScn.stdin}
+	vxScn.open = nil
 
 	// expected outcome: left fold of the library's own Apply over the files in command-line order
 	expectOK := true
@@ -278,6 +503,7 @@ func H_C20_Main() {
 	}
 
 	if vx.IsSymbolic() {
+		os.Stdin, os.Stdout, os.Stderr = vxStdin, vxStdout, vxStderr
 		func() {
 			defer func() {
 				if r := recover(); r != nil {
